@@ -479,7 +479,7 @@ def jobs(tier="quick", seed=0):
                       replay=x86_replay(name, isa, ff, AL, cleanup, adj_known, pattern), kind="E",
                       func="gtirb_rewriting.patches.calls:_CallPatchX86.get_asm", expect_cover=("generated",), max_seconds=1500)
     yield Job("C17/ARM64/load_immediate", load_immediate_harness, setup=lambda: shims.installed([CP, UT]), replay=lambda c, m: replay_load_immediate(c, m), kind="D",
-              func="gtirb_rewriting.patches.calls:_CallPatchARM64._load_immediate", expect_cover=("generated",))
+              func="gtirb_rewriting.patches.calls:_CallPatchARM64._load_immediate", expect_cover=("generated",), timeout_ms=180000)
     yield Job("C17/ARM64/load_symbol", load_symbol_harness, setup=lambda: shims.installed([CP, UT]), kind="D",
               func="gtirb_rewriting.patches.calls:_CallPatchARM64._load_symbol")
     for pattern in pats:
